@@ -32,9 +32,10 @@
 From Coq Require Import List ZArith Bool Lia Arith.
 Import ListNotations.
 From TI Require Import lib.Term lib.Eff model.Screen model.ScreenUrwid model.ScreenSession model.ScreenCalls
+  model.ScreenAbort model.ScreenWidget
   gen.ScreenSkel
   proofs.ScreenAlloc proofs.ScreenWalk proofs.ScreenGhost proofs.ScreenSync proofs.ScreenExamples
-  proofs.ScreenSessionProofs proofs.ScreenSessionSrc.
+  proofs.ScreenSessionProofs proofs.ScreenSessionSrc proofs.ScreenAbortProofs proofs.ScreenWidgetProofs.
 From TI Require gen.ZIndexSrc proofs.ZIndexSrcTie.
 
 (** For EVERY history of widget constructions ([ANew], with any choice of the freed index
@@ -273,6 +274,168 @@ Theorem C18_cleared_on_start_stop_clear_source : forall k term other,
   /\ traces sk_start <> [] /\ traces sk_stop <> [] /\ traces sk_clear <> [].
 Proof. exact source_cleared_lemma. Qed.
 Print Assumptions C18_cleared_on_start_stop_clear_source.
+
+(** ** Every valid widget (model/ScreenWidget.v)
+
+    A widget may be constructed with ANY valid format specifier of its image's render style; for
+    a KittyImage that includes a z-index field (documented as ignored for widgets), a render
+    method, the mix and compression fields.  The parsed style arguments [spec] are passed to the
+    renderer at every render, after the widget has written ITS OWN entries into them
+    ([init_args]).  Whatever [spec] holds: the z-index of every placement a kitty widget
+    transmits is the z-index the allocator gave it ([z]) - the one the screen deletes by -;
+    off Konsole [blend] is False; a text widget renders with [split_cells]; every other field
+    of the specifier reaches the renderer unchanged. *)
+Theorem C18_widget_places_with_own_z_index : forall konsole z spec,
+  placed_z (init_args IKitty konsole z spec) = z
+  /\ (konsole = false -> sget KBlend (init_args IKitty konsole z spec) = Some 0%Z)
+  /\ sget KSplit (init_args IText konsole z spec) = Some 1%Z
+  /\ (forall k, k <> KZ -> k <> KBlend -> sget k (init_args IKitty konsole z spec) = sget k spec).
+Proof. exact widget_places_with_own_z_lemma. Qed.
+Print Assumptions C18_widget_places_with_own_z_index.
+
+(** For EVERY history of constructions - each with its own, arbitrary style arguments - and
+    finalisations: the z-indexes with which the live kitty widgets place their images ON THE
+    TERMINAL are the allocator's, hence pairwise distinct, non-zero and within
+    [-(2^31-1), 2^31-1] ([C18_z_distinct_in_range] is about the indexes the widgets HOLD). *)
+Theorem C18_placed_z_distinct_for_every_format_spec : forall konsole (h : list wev),
+  NoDup (placed_zs (init_args IKitty konsole) h)
+  /\ (forall z, In z (placed_zs (init_args IKitty konsole) h) -> z <> 0 /\ - (zlimit - 1) <= z <= zlimit - 1)%Z.
+Proof. exact placed_z_distinct_lemma. Qed.
+Print Assumptions C18_placed_z_distinct_for_every_format_spec.
+
+(** The order of the merge matters: with the specifier's entries winning
+    ([{**widget_style_args, **style_args}]), two widgets constructed with [+z5] hold the
+    z-indexes 1 and -1 but both place their images with z-index 5, and the screen's delete by
+    the widget's z-index removes nothing (with the code's order it removes the placement). *)
+Theorem C18_format_spec_z_wins_refuted :
+  let h := [WNew 0 [(KZ, 5%Z)]; WNew 0 [(KZ, 5%Z)]] in
+  live_zs (hist_run (map wev_forget h)) = [(-1)%Z; 1%Z]
+  /\ placed_zs (init_args_spec_wins IKitty false) h = [5%Z; 5%Z]
+  /\ placed_zs (init_args IKitty false) h = [(-1)%Z; 1%Z]
+  /\ apply_del (DelZ 1) 0 0 [mk_plc 0 0 4 1 (placed_z (init_args_spec_wins IKitty false 1 [(KZ, 5%Z)]))] <> []
+  /\ apply_del (DelZ 1) 0 0 [mk_plc 0 0 4 1 (placed_z (init_args IKitty false 1 [(KZ, 5%Z)]))] = [].
+Proof. exact spec_z_wins_refuted. Qed.
+Print Assumptions C18_format_spec_z_wins_refuted.
+
+(** ** Redraws that urwid aborts or short-circuits (model/ScreenAbort.v)
+
+    A draw_screen call does not always reach the terminal: urwid returns WITHOUT drawing while a
+    terminal resize is pending ([AWinch] ... [AResized]: SIGWINCH until get_input() has
+    reported it), its draw may raise before anything is written ([AFail]), and it returns at
+    once when handed the very canvas object its screen buffer holds ([quick]).  The library's
+    own part has run nevertheless: unless the canvas is the one PROCESSED last, the images of
+    the views it does not have were deleted and [_ti_image_cviews] replaced.  [canvas id]: what
+    the canvas OBJECT [id] shows (the same object may be drawn any number of times: urwid's
+    canvas cache).  Hypotheses ([aops_wf_with]): (W) for every draw_screen call in the state it
+    meets - over the views the screen tracks, those urwid's screen buffer holds and those of
+    the canvas handed over, all of which belong to live widgets -, the COUNT hypothesis for
+    the calls that reach the terminal, live widgets as arguments of clear_images().
+
+    For EVERY such sequence, in every reachable state: once the queue is flushed the terminal
+    shows no placement that does not belong to a view the screen tracks ... *)
+Theorem C18_aborted_redraws_terminal_is_tracked :
+  forall (H : nat) (konsole : bool) (lines : view -> list (Z * Z * Z)) (kittyw : nat -> bool)
+         (canvas : nat -> list view * (Z -> Z)) (ops : list aop),
+  aops_wf_with H konsole lines kittyw canvas skip_processed aworld_init ops ->
+  forall p, In p (t_plcs (flushed konsole (aw_w (arun H konsole true lines canvas skip_processed ops aworld_init))))
+            -> In p (plcs_of lines (s_prev (w_scr (aw_w (arun H konsole true lines canvas skip_processed ops aworld_init))))).
+Proof. exact abort_tracked_lemma. Qed.
+Print Assumptions C18_aborted_redraws_terminal_is_tracked.
+
+(** ... after EVERY draw_screen call - completed, aborted by a pending resize, aborted by an
+    exception of the base class' draw, or short-circuited - the screen tracks exactly the
+    views of the canvas handed over, nothing is left in the output queue and the terminal
+    shows NO placement that this canvas does not have (no ghost; so whatever goes away later
+    is deleted) ... *)
+Theorem C18_aborted_redraws_no_ghosts :
+  forall (H : nat) (konsole : bool) (lines : view -> list (Z * Z * Z)) (kittyw : nat -> bool)
+         (canvas : nat -> list view * (Z -> Z)) (ops : list aop) (id : nat) (o : aop),
+  o = ADraw id \/ o = AFail id ->
+  aops_wf_with H konsole lines kittyw canvas skip_processed aworld_init (ops ++ [o]) ->
+  let aw := arun H konsole true lines canvas skip_processed (ops ++ [o]) aworld_init in
+  w_queue (aw_w aw) = []
+  /\ s_prev (w_scr (aw_w aw)) = fst (canvas id)
+  /\ forall p, In p (t_plcs (w_term (aw_w aw))) -> In p (plcs_of lines (fst (canvas id))).
+Proof. exact abort_no_ghosts_lemma. Qed.
+Print Assumptions C18_aborted_redraws_no_ghosts.
+
+(** ... and after each redraw that is NOT aborted (no resize pending, the base draw returns),
+    whatever aborted redraws preceded it, the placements on the terminal are EXACTLY those of
+    the canvas drawn: when it reaches the terminal, and also when urwid short-circuits it
+    provided nothing disturbed the lines of that canvas since urwid wrote them
+    ([undisturbed]: a public clear_images() call or an aborted redraw that deleted an image of
+    this very canvas does disturb them - urwid does not draw the canvas object it drew last
+    again, so those images stay deleted until a new canvas is drawn: observed on the real
+    code, outside the property's "redraw"). *)
+Theorem C18_redraws_exact_among_aborted_ones :
+  forall (H : nat) (konsole : bool) (lines : view -> list (Z * Z * Z)) (kittyw : nat -> bool)
+         (canvas : nat -> list view * (Z -> Z)) (ops : list aop) (id : nat),
+  aops_wf_with H konsole lines kittyw canvas skip_processed aworld_init (ops ++ [ADraw id]) ->
+  let aw0 := arun H konsole true lines canvas skip_processed ops aworld_init in
+  aw_resized aw0 = false ->
+  (quick aw0 id = true -> undisturbed canvas aw0 id) ->
+  let aw := arun H konsole true lines canvas skip_processed (ops ++ [ADraw id]) aworld_init in
+  w_queue (aw_w aw) = []
+  /\ forall p, In p (t_plcs (w_term (aw_w aw))) <-> In p (plcs_of lines (fst (canvas id))).
+Proof. exact abort_exact_lemma. Qed.
+Print Assumptions C18_redraws_exact_among_aborted_ones.
+
+(** The count hypothesis holds by itself while urwid has no screen buffer (after clear(), a
+    start, a SIGWINCH: any number of aborted redraws while the resize is pending), and when at
+    most one redraw was aborted since urwid's screen buffer was written. *)
+Theorem C18_count_ok_among_aborted_redraws :
+  forall (konsole : bool) (w : world) (V1 V : list view),
+  (w_sb w = None -> count_ok w V)
+  /\ (w_nall w = 0 -> (forall wd, wdis_get wd (w_nw w) = 0) -> count_ok (step_abort konsole true w V1) V).
+Proof. exact (fun konsole => count_ok_among_aborted_lemma 0 konsole (fun _ => true)). Qed.
+Print Assumptions C18_count_ok_among_aborted_redraws.
+
+(** The decision "canvas unchanged: skip the bookkeeping" must be keyed on the canvas
+    PROCESSED last.  Keyed on the canvas that REACHED the terminal last ([skip_reached]:
+    urwid's own record), the sequence  draw A (one kitty image); SIGWINCH; draw B (no image:
+    urwid skips the drawing, the image is deleted); resize handled; draw the same canvas
+    object A; draw B  satisfies every hypothesis above
+    ([C18_aborted_redraws_hypotheses_satisfiable]), no resize is pending at the last redraw
+    and it reaches the terminal - yet the terminal keeps A's two image lines although B has
+    none and the screen tracks none: a ghost.  With the code's decision the terminal ends up
+    with B's placements. *)
+Theorem C18_skip_keyed_on_reached_canvas_refuted :
+  let run := fun skipf ops => arun 4 false true ex_lines ex_canvas skipf ops aworld_init in
+  aw_resized (run skip_processed (removelast ex_ops)) = false
+  /\ reaches (run skip_processed (removelast ex_ops)) 2 = true
+  /\ t_plcs (w_term (aw_w (run skip_processed ex_ops))) = plcs_of ex_lines (fst (ex_canvas 2))
+  /\ aw_resized (run skip_reached (removelast ex_ops)) = false
+  /\ reaches (run skip_reached (removelast ex_ops)) 2 = true
+  /\ plcs_of ex_lines (fst (ex_canvas 2)) = []
+  /\ t_plcs (w_term (aw_w (run skip_reached ex_ops))) = [mk_plc 1 0 4 1 1; mk_plc 0 0 4 1 1]
+  /\ s_prev (w_scr (aw_w (run skip_reached ex_ops))) = [].
+Proof. exact skip_reached_refuted. Qed.
+Print Assumptions C18_skip_keyed_on_reached_canvas_refuted.
+
+Theorem C18_aborted_redraws_hypotheses_satisfiable :
+  aops_wf_with 4 false ex_lines (fun _ => true) ex_canvas skip_processed aworld_init ex_ops
+  /\ aops_wf_with 4 false ex_lines (fun _ => true) ex_canvas skip_reached aworld_init ex_ops.
+Proof. exact ex_ops_wf_both. Qed.
+Print Assumptions C18_aborted_redraws_hypotheses_satisfiable.
+
+(** The proviso [undisturbed] of [C18_redraws_exact_among_aborted_ones] cannot be dropped:
+    draw A (one kitty image); a redraw of B (no image) in which the base class' draw raises (the
+    image is deleted, the screen tracks B's views); draw the very canvas object A again - urwid's
+    screen buffer still holds A, so urwid returns at once: the image is tracked again but is not
+    on the terminal (nothing is left behind either).  All hypotheses hold and no resize is
+    pending.  The real code behaves like this (an observation: after a failed redraw, a
+    draw_screen() of the canvas object urwid drew last paints nothing). *)
+Theorem C18_short_circuited_redraw_after_failed_one_not_exact :
+  let run := fun ops => arun 4 false true ex_lines ex_canvas skip_processed ops aworld_init in
+  aops_wf_with 4 false ex_lines (fun _ => true) ex_canvas skip_processed aworld_init ex_ops2
+  /\ aw_resized (run (removelast ex_ops2)) = false
+  /\ quick (run (removelast ex_ops2)) 1 = true
+  /\ redraw_nw (fst (ex_canvas 1)) (aw_w (run (removelast ex_ops2))) 1 = 1
+  /\ t_plcs (w_term (aw_w (run ex_ops2))) = []
+  /\ plcs_of ex_lines (fst (ex_canvas 1)) = [mk_plc 0 0 4 1 1; mk_plc 1 0 4 1 1]
+  /\ s_prev (w_scr (aw_w (run ex_ops2))) = fst (ex_canvas 1).
+Proof. exact exact_needs_undisturbed. Qed.
+Print Assumptions C18_short_circuited_redraw_after_failed_one_not_exact.
 
 (** *** the z-index allocator tied to the source as a theorem (T): [UrwidImage._ti_get_z_index]
     (counter branch: exhaustion test and successor 1, -1, 2, -2, ...) is translated from
